@@ -136,6 +136,8 @@ def handleSexp : Sexp → Option String
   | .list [.atom "emit", .atom "inout", .atom c] => some (showProg (emitInout c))
   | .list [.atom "emit", .atom "unpack", .atom l, .atom r, s, .atom n] => do
     some (showProg (emitUnpack (← l.toNat?) (← r.toNat?) (← lin? s) (← n.toNat?)))
+  | .list [.atom "emit", .atom "unpacknamed", .atom l, .atom r, s, .atom n, names] => do
+    some (showProg (emitUnpackNamed (← l.toNat?) (← r.toNat?) (← lin? s) (← n.toNat?) (← Sexp.natList? names)))
   | .list [.atom "emit", .atom "discard", l] => do some (showProg (emitDiscardAllUsed (← lin? l)))
   | .list [.atom "emit", .atom "copy"] => some (showProg emitCopy)
   | .list [.atom "emit", .atom "compbody"] => some (showProg emitCompBody)
